@@ -37,21 +37,21 @@ theorem C02_notfound_leaves_environment (db : Db) (fuel : Nat) (fwd : Bool) (r :
     subst this; exact ⟨rfl, rfl, rfl⟩
 
 /-- the VRO a dependency line is resolved with (`Action.processArgs`): its own `-t` tags in front of the current VRO,
-"keep" in front of everything when the current VRO has it -/
-def lineVro (vro : List VroEnt) (tags : List Str) : List VroEnt :=
-  if VroEnt.keep ∈ vro then VroEnt.keep :: (tags.map VroEnt.tag ++ vro) else tags.map VroEnt.tag ++ vro
+"keep" in front of everything when the current VRO has it or the line carries `-k` -/
+def lineVro (vro : List VroEnt) (tags : List Str) (keepLine : Bool) : List VroEnt :=
+  if VroEnt.keep ∈ vro ∨ keepLine = true then VroEnt.keep :: (tags.map VroEnt.tag ++ vro) else tags.map VroEnt.tag ++ vro
 
 /-- … and inside a request: when a dependency fails (`setupOptional`, or any dependency while unwinding), the
 remaining actions of the table run from exactly the environment and aliases that were current before the attempt
 (`popStack("env")`); what the failed attempt did to `os.environ` and to the alias table is discarded. -/
 theorem C02_failed_dependency_restores_env (rec : Rec) (cfg : Cfg) (fwd : Bool) (depth : Nat) (vro : List VroEnt)
-    (d : Decl) (n : Name) (opt just : Bool) (ver : Option VerReq) (vexpr : Option VExpr) (tags : List Str)
+    (d : Decl) (n : Name) (opt just : Bool) (ver : Option VerReq) (vexpr : Option VExpr) (tags : List Str) (kl : Bool)
     (rest : List Act) (s s' : St) (hgo : cfg.maxDepth ≠ some depth) (hopt : fwd = false ∨ opt = true)
-    (hfail : rec fwd (depth + 1) just (lineVro vro tags) n
+    (hfail : rec fwd (depth + 1) just (lineVro vro tags kl) n
         (if fwd then ver else none) (if fwd then vexpr else none) s = .notFound s' ∨
-      rec fwd (depth + 1) just (lineVro vro tags) n
+      rec fwd (depth + 1) just (lineVro vro tags kl) n
         (if fwd then ver else none) (if fwd then vexpr else none) s = .raised s') :
-    acts rec cfg fwd depth false vro d (.dep n opt just ver vexpr tags :: rest) s =
+    acts rec cfg fwd depth false vro d (.dep n opt just ver vexpr tags kl :: rest) s =
       acts rec cfg fwd depth false vro d rest { s' with env := s.env, aliases := s.aliases, unaliased := s.unaliased } := by
   have hcond : (fwd && !opt) = false := by rcases hopt with h | h <;> simp [h]
   unfold lineVro at hfail
@@ -59,21 +59,21 @@ theorem C02_failed_dependency_restores_env (rec : Rec) (cfg : Cfg) (fwd : Bool) 
 
 /-- a failing *required* dependency aborts the request with the environment it had before the attempt -/
 theorem C02_failed_required_dependency_raises (rec : Rec) (cfg : Cfg) (depth : Nat) (vro : List VroEnt)
-    (d : Decl) (n : Name) (just : Bool) (ver : Option VerReq) (vexpr : Option VExpr) (tags : List Str)
+    (d : Decl) (n : Name) (just : Bool) (ver : Option VerReq) (vexpr : Option VExpr) (tags : List Str) (kl : Bool)
     (rest : List Act) (s s' : St) (hgo : cfg.maxDepth ≠ some depth)
-    (hfail : rec true (depth + 1) just (lineVro vro tags) n ver vexpr s = .notFound s' ∨
-      rec true (depth + 1) just (lineVro vro tags) n ver vexpr s = .raised s') :
-    acts rec cfg true depth false vro d (.dep n false just ver vexpr tags :: rest) s = .raised { s' with env := s.env, aliases := s.aliases, unaliased := s.unaliased } := by
+    (hfail : rec true (depth + 1) just (lineVro vro tags kl) n ver vexpr s = .notFound s' ∨
+      rec true (depth + 1) just (lineVro vro tags kl) n ver vexpr s = .raised s') :
+    acts rec cfg true depth false vro d (.dep n false just ver vexpr tags kl :: rest) s = .raised { s' with env := s.env, aliases := s.aliases, unaliased := s.unaliased } := by
   unfold lineVro at hfail
   rcases hfail with h | h <;> simp [acts, hgo, h]
 
 /-! ## clause 1 is false as stated: two witnesses (design limits of eups, findings D15a / D15b) -/
 
 def nA : Name := [97]
-def v1 : Ver := [49]
+def v1 : Ver := ([49], 0)
 def PATH : Str := [80]
 def V : Str := [86]
-def reqA : Request := ⟨nA, none, false, none, false, []⟩
+def reqA : Request := ⟨nA, none, false, none, false, [], [0]⟩
 
 /-- `a 1`: `envSet(V, ${PRODUCT_DIR})`, `envPrepend(PATH, ${PRODUCT_DIR}/bin)` -/
 def dbA : Db :=
@@ -209,7 +209,7 @@ theorem C02_inverse_partial (db : Db) (rank : Name → Nat) (hdag : NameDag db r
 the round trip restores the environment -/
 theorem C02_inverse_single (db : Db) (rank : Name → Nat) (hdag : NameDag db rank) (hown : OwnTables db)
     (fuel1 fuel2 : Nat) (r : Request) (e0 : Setup.Env) (s1 s2 : St)
-    (hnodep : ∀ d ∈ db.decls, d.name = r.name → ∀ g n o j v x t, (g, Act.dep n o j v x t) ∉ d.table)
+    (hnodep : ∀ d ∈ db.decls, d.name = r.name → ∀ g n o j v x t kl, (g, Act.dep n o j v x t kl) ∉ d.table)
     (hwell : WellOwned (r.cfg db) e0) (hres : NoResidue Empty e0) (hfresh : Fresh db r e0)
     (h1 : runSetup db fuel1 r e0 = .ok s1) (h2 : runUnsetup db fuel2 r s1.env = .ok s2) : s2.env.approx e0 := by
   refine C02_inverse_partial db rank hdag hown fuel1 fuel2 r e0 s1 s2 hwell hres hfresh h1 h2 ?_
@@ -217,7 +217,7 @@ theorem C02_inverse_single (db : Db) (rank : Name → Nat) (hdag : NameDag db ra
     intro k n hw
     induction hw with
     | root => rfl
-    | step _ hd hn hg ih => subst ih; exact absurd hg (hnodep _ hd hn _ _ _ _ _ _ _)
+    | step _ hd hn hg ih => subst ih; exact absurd hg (hnodep _ hd hn _ _ _ _ _ _ _ _)
   intro n ⟨k, hk⟩
   rw [honly k n hk]
   obtain ⟨_, hwell1⟩ := (setup_recOK (r.cfg db) rank hdag fuel1).spec true 0 false r.vro r.name r.version none (St.init e0) s1
@@ -230,7 +230,7 @@ private theorem reach_rank_le (db : Db) (rank : Name → Nat) (hdag : NameDag db
   induction hw with
   | root => exact Nat.le_refl _
   | step _ hd hn hg ih =>
-    have := hdag _ hd _ _ _ _ _ _ _ hg
+    have := hdag _ hd _ _ _ _ _ _ _ _ hg
     rw [hn] at this
     omega
 
@@ -247,7 +247,7 @@ theorem C02_inverse_nojust_partial (db : Db) (rank : Name → Nat) (hdag : NameD
   refine C02_inverse_partial db rank hdag hown fuel1 fuel2 r e0 s1 s2 hwell hres hfresh h1 h2 ?_
   let cfg := r.cfg db
   let S : Name → Prop := Reach db r.name
-  have hcl : Closed cfg.db S := fun d hd ⟨k, hk⟩ g n o j v x t hg => ⟨k + 1, Within.step hk hd rfl hg⟩
+  have hcl : Closed cfg.db S := fun d hd ⟨k, hk⟩ g n o j v x t kl hg => ⟨k + 1, Within.step hk hd rfl hg⟩
   have hS0 : S r.name := ⟨0, Within.root⟩
   have ha : ∀ e : Setup.Env, AlreadyOK cfg.db (St.init e).already := by
     intro e n d x h; simp [St.init, aget] at h
@@ -275,10 +275,10 @@ theorem C02_inverse_nojust_partial (db : Db) (rank : Name → Nat) (hdag : NameD
       | none => rfl
       | some v =>
         exfalso
-        rcases hsupp1 m v hm (hsub.recs m v hc) with rfl | ⟨p, w, hp, hpw, o, j, x, y, t, hline⟩
+        rcases hsupp1 m v hm (hsub.recs m v hc) with rfl | ⟨p, w, hp, hpw, o, j, x, y, t, kl, hline⟩
         · rw [htop] at hc; cases hc
         · obtain ⟨dp, hdp, hname, g, hg⟩ := tableOf_mem cfg p w _ hline
-          have h1 := hdag dp hdp g m o j x y t hg
+          have h1 := hdag dp hdp g m o j x y t kl hg
           obtain ⟨kp, hkp⟩ := hp
           have h2 := reach_rank_le db rank hdag r.name kp p hkp
           rw [hname] at h1
@@ -289,13 +289,13 @@ theorem C02_inverse_nojust_partial (db : Db) (rank : Name → Nat) (hdag : NameD
       | none => rfl
       | some v =>
         exfalso
-        rcases hsupp1 m v hm (hsub.recs m v hc) with rfl | ⟨p, w, hp, hpw, o, j, x, y, t, hline⟩
+        rcases hsupp1 m v hm (hsub.recs m v hc) with rfl | ⟨p, w, hp, hpw, o, j, x, y, t, kl, hline⟩
         · rw [htop] at hc; cases hc
         · obtain ⟨dp, hdp, hname, g, hg⟩ := tableOf_mem cfg p w _ hline
-          have h1 := hdag dp hdp g m o j x y t hg
+          have h1 := hdag dp hdp g m o j x y t kl hg
           rw [hname] at h1
           have hpnone := ih p hp (by omega)
-          have := hclear p w hp hpw hpnone m o j x y t hline
+          have := hclear p w hp hpw hpnone m o j x y t kl hline
           rw [this] at hc; cases hc
   intro n hn
   exact key (rank r.name) n hn (by omega)
@@ -326,13 +326,13 @@ def nB : Name := [98]
 def nC : Name := [99]
 def dbDia : Db :=
   { decls := [
-      ⟨nT, v1, [1], [(.always, .dep nA false false none none []), (.always, .prepend PATH [.own [1]] false),
-                     (.always, .dep nB false false none none [])]⟩,
-      ⟨nA, v1, [2], [(.always, .prepend PATH [.own [1]] false), (.always, .dep nC false false none none [])]⟩,
-      ⟨nB, v1, [3], [(.always, .dep nC true false none none []), (.always, .set V (.own [])), (.always, .prepend PATH [.own [1]] true)]⟩,
+      ⟨nT, v1, [1], [(.always, .dep nA false false none none [] false), (.always, .prepend PATH [.own [1]] false),
+                     (.always, .dep nB false false none none [] false)]⟩,
+      ⟨nA, v1, [2], [(.always, .prepend PATH [.own [1]] false), (.always, .dep nC false false none none [] false)]⟩,
+      ⟨nB, v1, [3], [(.always, .dep nC true false none none [] false), (.always, .set V (.own [])), (.always, .prepend PATH [.own [1]] true)]⟩,
       ⟨nC, v1, [4], [(.always, .prepend PATH [.own [1]] false)]⟩ ],
     tags := [(tagCurrent, nT, v1), (tagCurrent, nA, v1), (tagCurrent, nB, v1), (tagCurrent, nC, v1)] }
-def reqT : Request := ⟨nT, none, false, none, false, []⟩
+def reqT : Request := ⟨nT, none, false, none, false, [], [0]⟩
 def priorDia : Setup.Env := { Setup.Env.empty with paths := [(PATH, [.foreign [47, 117]])] }
 
 /-- records after the setup step (none when it does not succeed) -/
@@ -351,12 +351,12 @@ example : OwnTables dbDia ∧ NameDag dbDia (fun n => if n = nT then 3 else if n
 
 /-- non-vacuity of `C02_inverse_nojust_partial` with a version conflict: `t → a → c 1`, `t → b → c 2` (`c 1` is set up,
 then replaced by `c 2`, in one request); the round trip restores the prior environment -/
-def v2 : Ver := [50]
+def v2 : Ver := ([50], 0)
 def dbConflict : Db :=
   { decls := [
-      ⟨nT, v1, [1], [(.always, .dep nA false false none none []), (.always, .dep nB false false none none [])]⟩,
-      ⟨nA, v1, [2], [(.always, .prepend PATH [.own [1]] false), (.always, .dep nC false false (some (.explicit v1)) none [])]⟩,
-      ⟨nB, v1, [3], [(.always, .prepend PATH [.own [1]] false), (.always, .dep nC false false (some (.explicit v2)) none [])]⟩,
+      ⟨nT, v1, [1], [(.always, .dep nA false false none none [] false), (.always, .dep nB false false none none [] false)]⟩,
+      ⟨nA, v1, [2], [(.always, .prepend PATH [.own [1]] false), (.always, .dep nC false false (some (.explicit v1.1)) none [] false)]⟩,
+      ⟨nB, v1, [3], [(.always, .prepend PATH [.own [1]] false), (.always, .dep nC false false (some (.explicit v2.1)) none [] false)]⟩,
       ⟨nC, v1, [4], [(.always, .prepend PATH [.own [1], .own [2]] false)]⟩,
       ⟨nC, v2, [5], [(.always, .prepend PATH [.own [1]] true)]⟩ ],
     tags := [(tagCurrent, nT, v1), (tagCurrent, nA, v1), (tagCurrent, nB, v1), (tagCurrent, nC, v1)] }
